@@ -3,6 +3,8 @@ Hot/cold histogram protocol (C02/C03): relational step model with a list of in-f
 ("most general client": tasks are spawned at any time, anywhere in the list), ghost assignment lists.
 A task that holds the collect lock without having flipped (`colLocked`) may also `release` it again:
 that is `get_sample_sum`, which reads the hot shard's sum under the lock.
+A collector past its spin (`colMove cold ov todo taken S`) takes the steps of `todo` in ANY order such that
+`addHot c` comes after `swap c` and `unlock` comes last; an observer applies its cell updates in any order.
 -/
 namespace Hp
 
@@ -79,7 +81,9 @@ def init : St :=
   { hot := false, n := 0, sh := fun _ => ⟨0, fun _ => 0⟩, lock := false, tasks := [],
     claimed := [], asg := fun _ => [], snaps := [] }
 
-/-- collector program for `k` bucket cells (0..k-1) and the sum cell `k` -/
+/-- the steps a collector has to take after its spin, for `k` bucket cells (0..k-1) and the sum cell `k`:
+    the order of this list is ONE admissible order (the original code's); `Step.swap / addHot / addCount`
+    take the steps in any order in which `addHot c` comes after `swap c`, and `Step.unlock` comes last -/
 def bucketSteps : Nat → List CStep
   | 0 => []
   | j + 1 => bucketSteps j ++ [CStep.swap j, CStep.addHot j]
@@ -138,27 +142,31 @@ inductive Step (k : Nat) : St → St → Prop
       Step k s { s with
         tasks := pre ++ Task.colMove cold ov (prog k) (fun _ => 0) S :: post
         sh := modSh s.sh cold (fun x => { x with count := 0 }) }
+  /- the collector's drain: the steps of `todo` may be taken in ANY order (the task takes any one
+     element of the list: `l1 ++ step :: l2` becomes `l1 ++ l2`), subject to: `addHot c` only once
+     `swap c` has been done (it is no longer in the list), `unlock` last (nothing else is left) -/
   | swap (s : St) (pre post : List Task) (cold : Bool) (ov : Nat) (c : Nat)
-      (todo : List CStep) (taken : Cells) (S : List Obs)
-      (ht : s.tasks = pre ++ Task.colMove cold ov (CStep.swap c :: todo) taken S :: post) :
+      (l1 l2 : List CStep) (taken : Cells) (S : List Obs)
+      (ht : s.tasks = pre ++ Task.colMove cold ov (l1 ++ CStep.swap c :: l2) taken S :: post) :
       Step k s { s with
-        tasks := pre ++ Task.colMove cold ov todo (setCell taken c ((s.sh cold).cell c)) S :: post
+        tasks := pre ++ Task.colMove cold ov (l1 ++ l2) (setCell taken c ((s.sh cold).cell c)) S :: post
         sh := modSh s.sh cold (fun x => { x with cell := setCell x.cell c 0 }) }
   | addHot (s : St) (pre post : List Task) (cold : Bool) (ov : Nat) (c : Nat)
-      (todo : List CStep) (taken : Cells) (S : List Obs)
-      (ht : s.tasks = pre ++ Task.colMove cold ov (CStep.addHot c :: todo) taken S :: post) :
+      (l1 l2 : List CStep) (taken : Cells) (S : List Obs)
+      (ht : s.tasks = pre ++ Task.colMove cold ov (l1 ++ CStep.addHot c :: l2) taken S :: post)
+      (hs : CStep.swap c ∉ l1 ++ l2) :
       Step k s { s with
-        tasks := pre ++ Task.colMove cold ov todo taken S :: post
+        tasks := pre ++ Task.colMove cold ov (l1 ++ l2) taken S :: post
         sh := modSh s.sh (!cold) (fun x => { x with cell := setCell x.cell c (x.cell c + taken c) }) }
   | addCount (s : St) (pre post : List Task) (cold : Bool) (ov : Nat)
-      (todo : List CStep) (taken : Cells) (S : List Obs)
-      (ht : s.tasks = pre ++ Task.colMove cold ov (CStep.addCount :: todo) taken S :: post) :
+      (l1 l2 : List CStep) (taken : Cells) (S : List Obs)
+      (ht : s.tasks = pre ++ Task.colMove cold ov (l1 ++ CStep.addCount :: l2) taken S :: post) :
       Step k s { s with
-        tasks := pre ++ Task.colMove cold ov todo taken S :: post
+        tasks := pre ++ Task.colMove cold ov (l1 ++ l2) taken S :: post
         sh := modSh s.sh (!cold) (fun x => { x with count := x.count + ov }) }
   | unlock (s : St) (pre post : List Task) (cold : Bool) (ov : Nat)
-      (todo : List CStep) (taken : Cells) (S : List Obs)
-      (ht : s.tasks = pre ++ Task.colMove cold ov (CStep.unlock :: todo) taken S :: post) :
+      (taken : Cells) (S : List Obs)
+      (ht : s.tasks = pre ++ Task.colMove cold ov [CStep.unlock] taken S :: post) :
       Step k s { s with
         tasks := pre ++ post
         lock := false
